@@ -19,6 +19,18 @@
 //!         For "simple" fonts (cmr10 among them) TeX 913-916 is replayed on letter counts and the
 //!         positions and replaced ranges must match exactly (`expected_simple`).
 //!
+//!   (v)   comparison with the list TeX 903-918 builds (`models::tex_hyph`): which permitted positions
+//!         are dropped while the branches synchronise, the replace counts, and every glyph, kern and
+//!         boundary flag inside the pre-break and post-break lists. The statement of C14 does not demand
+//!         this list, so a difference that ONLY (v) sees - clauses (i)-(iv) hold and the discretionaries stand
+//!         at exactly the letter positions TeX keeps (which permitted positions TeX 913-916 drops during
+//!         synchronisation is read off the model; this is clause (iv) made exact) - is counted
+//!         (`differs_from_tex_reconstitution_but_stated_clauses_hold` and `differs:*`) and passes. What
+//!         the model DECIDES: exactly which words TeX itself rebuilds differently from the original nodes
+//!         (TeX's anomalies; there (i) cannot hold against the original nodes and (i)-(iv) must hold
+//!         either against them or against the nodes TeX rebuilds), and the reference of the listed
+//!         finding KF-C14-1.
+//!
 //! Sub-checks
 //!   unit_goldens  the 33 TeX-verified unit tests of boxworks-hyphenate (read from its source file): the
 //!                 ORACLE is run on TeX's expected list (calibration), then the implementation is compared.
@@ -28,11 +40,16 @@
 //!   fixed         hand-made cases (DESIGN.md examples, D23 shapes, witnesses of the findings).
 //!   cmr10         generated text in cmr10.
 //!   synth         generated text in cmr10's metrics with a generated lig/kern program.
+//!   cmr10_exhaustive  every word over {f,i,l,a} up to 6 (thorough 8) letters x every hyphen mask in cmr10.
 //!
-//! Debugging aids: `VP_C14_ONLY=<sub-check>` runs one sub-check, `VP_C14_SHOW=1` prints every list.
+//! Debugging aids: `VP_C14_ONLY=<sub-check>` runs one sub-check, `VP_C14_SHOW=1` prints every list (and
+//! the TeX model's), `VP_C14_DEBUG_ANOM=1` prints the cases of the rarer anomaly classes.
 
 use crate::engine::*;
 use crate::models::liang::{self, Exception, Pattern};
+use crate::models::ligkern_interp::RawFont;
+use crate::models::tex_hyph;
+use crate::models::tfm_arith;
 use boxworks::ds;
 use boxworks::TextPreprocessor;
 use proptest::prelude::*;
@@ -71,7 +88,9 @@ pub enum Item {
     Space,
     /// `activate_font(n)`; fonts 0 and 1 are the same metric file (`{\otherfont ...}` in TeX)
     Font(u8),
-    /// a node pushed directly: 0 penalty, 1 explicit kern, 2 math-on, 3 rule, 4 whatsit, 5 empty hbox
+    /// a node pushed directly: 0 penalty, 1 explicit kern, 2 math-on, 3 rule, 4 whatsit, 5 empty hbox,
+    /// 6 mark, 7 insertion, 8 adjust, 9 empty vbox, 10 math-off, 11 discretionary `\-`, 12 accent kern,
+    /// 13 math kern (anything else: empty hbox)
     Node(u8),
 }
 
@@ -103,6 +122,14 @@ fn render_items(items: &[Item]) -> String {
                 2 => "<math>",
                 3 => "<rule>",
                 4 => "<whatsit>",
+                6 => "<mark>",
+                7 => "<insertion>",
+                8 => "<adjust>",
+                9 => "<vbox>",
+                10 => "<math-off>",
+                11 => "<\\->",
+                12 => "<accent-kern>",
+                13 => "<math-kern>",
                 _ => "<hbox>",
             }),
         }
@@ -137,7 +164,21 @@ impl ds::Whatsit for DummyWhatsit {}
 
 thread_local! {
     static CMR: RefCell<Option<(tfm::File, tfm::ligkern::CompiledProgram)>> = const { RefCell::new(None) };
+    static CMR_RAW: RefCell<Option<Rc<RawFont>>> = const { RefCell::new(None) };
     static PLAIN: RefCell<Option<hyphenate::Hyphenator>> = const { RefCell::new(None) };
+}
+
+/// cmr10's raw lig/kern instructions for the TeX model (`models::tex_hyph`), read from the metric file
+/// the way TeX reads it; never from the compiled program.
+fn cmr10_raw() -> Rc<RawFont> {
+    CMR_RAW.with(|c| {
+        let mut c = c.borrow_mut();
+        if c.is_none() {
+            let f = tfm::File::deserialize(CMR10).0.expect("cmr10.tfm parses");
+            *c = Some(Rc::new(RawFont::from_tfm_file(&f)));
+        }
+        c.as_ref().unwrap().clone()
+    })
 }
 
 fn cmr10() -> (tfm::File, tfm::ligkern::CompiledProgram) {
@@ -203,9 +244,34 @@ fn font_rules(c: &LCase) -> Vec<Rule> {
 struct Built {
     orig: Vec<ds::Horizontal>,
     program: tfm::ligkern::CompiledProgram,
+    /// the same lig/kern program as raw instructions, for the TeX model
+    raw: Rc<RawFont>,
+    /// TeX 568/572 for the font's design size (kern widths of the TeX model)
+    scale: Option<tfm_arith::TexScale>,
+}
+
+/// The directly pushed node of `Item::Node(k)`.
+fn pushed_node(k: u8) -> ds::Horizontal {
+    match k {
+        0 => ds::Penalty(50).into(),
+        1 => ds::Kern { width: common::Scaled::ONE, kind: ds::KernKind::Explicit }.into(),
+        2 => ds::Math::Before.into(),
+        3 => ds::Rule::new().into(),
+        4 => ds::Horizontal::Whatsit(Rc::new(DummyWhatsit)),
+        6 => ds::Mark { list: vec![] }.into(),
+        7 => ds::Insertion { box_number: 100, height: common::Scaled::ZERO, split_max_depth: common::Scaled::ZERO, split_top_skip: common::Glue::ZERO, float_penalty: 0, vbox: vec![] }.into(),
+        8 => ds::Adjust { list: vec![] }.into(),
+        9 => ds::VBox::default().into(),
+        10 => ds::Math::After.into(),
+        11 => ds::Discretionary { pre_break: vec![ds::Char { char: '-', font: 0 }.into()], post_break: vec![], replace_count: 0 }.into(),
+        12 => ds::Kern { width: common::Scaled::ONE, kind: ds::KernKind::Accent }.into(),
+        13 => ds::Kern { width: common::Scaled::ONE, kind: ds::KernKind::Math }.into(),
+        _ => ds::HBox::default().into(),
+    }
 }
 
 fn build(c: &LCase) -> Result<Built, &'static str> {
+    let mut raw: Option<Rc<RawFont>> = None;
     let (tfm_file, program) = match &c.rules {
         None => cmr10(),
         Some(rules) => {
@@ -214,7 +280,17 @@ fn build(c: &LCase) -> Result<Built, &'static str> {
             let Ok((p, e)) = tfm::ligkern::lang::Program::parse_compact(&text) else {
                 return Err("rules do not parse");
             };
+            let mut eps: Vec<(tfm::Char, u16)> = e.iter().map(|(c, e)| (*c, *e)).collect();
+            eps.sort();
+            raw = Some(Rc::new(RawFont::from_program(&p, eps, &[])));
             f.replace_lig_kern_program(p, e);
+            // The font both sides get is the one a TeX run would load: the metric file written to bytes
+            // and read back. (In memory, `replace_lig_kern_program` leaves `left_boundary_char_entrypoint`
+            // one instruction off when the font has a boundary character, so a font with rules for both
+            // boundaries would lose its left boundary program; the bytes are right.)
+            let Ok(mut f) = tfm::File::deserialize(&f.serialize()).0 else {
+                return Err("synthetic metric file does not load");
+            };
             let (p, errs) = tfm::ligkern::CompiledProgram::compile_from_tfm_file(&mut f);
             if !errs.is_empty() {
                 return Err("lig/kern program has an infinite loop");
@@ -232,17 +308,12 @@ fn build(c: &LCase) -> Result<Built, &'static str> {
             Item::Word(w) => tp.add_word(w, &mut list),
             Item::Space => tp.add_space(&mut list),
             Item::Font(n) => tp.activate_font((*n as u32) & 1),
-            Item::Node(k) => list.push(match k {
-                0 => ds::Penalty(50).into(),
-                1 => ds::Kern { width: common::Scaled::ONE, kind: ds::KernKind::Explicit }.into(),
-                2 => ds::Math::Before.into(),
-                3 => ds::Rule::new().into(),
-                4 => ds::Horizontal::Whatsit(Rc::new(DummyWhatsit)),
-                _ => ds::HBox::default().into(),
-            }),
+            Item::Node(k) => list.push(pushed_node(*k)),
         }
     }
-    Ok(Built { orig: list, program })
+    let raw = raw.unwrap_or_else(cmr10_raw);
+    let scale = tfm_arith::tex_scale(tfm_file.header.design_size.0);
+    Ok(Built { orig: list, program, raw, scale })
 }
 
 fn run_impl(c: &LCase, b: &Built) -> Vec<ds::Horizontal> {
@@ -353,8 +424,17 @@ fn is_letter(c: char) -> bool {
     c.is_ascii_alphabetic()
 }
 
+#[derive(Debug, Clone, Copy, PartialEq, Eq)]
+enum HyfBchar {
+    NonChar,
+    FontBchar,
+    Char(char),
+}
+
 #[derive(Debug, Clone)]
 struct WordInfo {
+    /// index of the glue node that started the attempt (TeX 894 `cur_p`)
+    glue: usize,
     /// index of the first letter node and of the last node TeX absorbs (`hb`)
     first: usize,
     last: usize,
@@ -366,6 +446,10 @@ struct WordInfo {
     ha_char: bool,
     /// the character TeX uses as right boundary when it is a real one (`hyf_bchar` from a node)
     bchar: Option<char>,
+    /// TeX's `hyf_bchar` exactly (TeX 897-898): `non_char` after a letter, the font's boundary
+    /// character after an implicit kern or a ligature with the right boundary, else the character
+    /// that ended the word
+    hyf_bchar: HyfBchar,
     /// TeX 899 lets the word be hyphenated
     tried: bool,
     cut_at_63: bool,
@@ -397,6 +481,10 @@ struct Dev {
     /// `includes_right_boundary = includes_left_boundary` of the true node (field copied from the wrong
     /// source in the synchronisation loop).
     sync_rb_from_lb: bool,
+    /// Not a deviation: the reference list is what TeX itself rebuilds in one of its anomalies. In
+    /// anomaly (c) the rebuilt word begins with the boundary's kern a second time, so a discretionary
+    /// may stand before (and replace) implicit kerns in front of the first letter node.
+    anomaly_reference: bool,
 }
 
 /// The list the implementation would produce without any discretionary under `dev`, and the words
@@ -411,7 +499,9 @@ fn deviating_original(orig: &[ds::Horizontal], program: &tfm::ligkern::CompiledP
     for w in words.iter_mut() {
         let (ofirst, olast) = (w.first, w.last);
         let has_permitted = !permitted(w, lex, lmin, rmin).is_empty();
-        let rebuilt = w.tried && if has_permitted { dev.lb_always || dev.from_first_letter } else { dev.rebuild_all };
+        // KF-C14-1 (from_first_letter) only concerns words whose preceding node is a character or
+        // ligature of the word's font: every other word TeX rebuilds from its first letter too
+        let rebuilt = w.tried && if has_permitted { dev.lb_always || (dev.from_first_letter && w.ha_char) } else { dev.rebuild_all };
         if !rebuilt {
             let delta = out.len() as isize - i as isize;
             out.extend_from_slice(&orig[i..=olast]);
@@ -497,6 +587,7 @@ fn discover(list: &[ds::Horizontal], dev: Dev) -> Vec<WordInfo> {
         let mut before = vec![0usize];
         let mut last = first;
         let mut bchar = None;
+        let mut hyf_bchar = HyfBchar::NonChar;
         let mut cut = false;
         loop {
             match list.get(s) {
@@ -506,15 +597,18 @@ fn discover(list: &[ds::Horizontal], dev: Dev) -> Vec<WordInfo> {
                     }
                     if !is_letter(c.char) {
                         bchar = Some(c.char);
+                        hyf_bchar = HyfBchar::Char(c.char);
                         break;
                     }
                     if letters.len() == 63 {
                         bchar = Some(c.char);
+                        hyf_bchar = HyfBchar::Char(c.char);
                         cut = true;
                         break;
                     }
                     letters.push(c.char);
                     bchar = None;
+                    hyf_bchar = HyfBchar::NonChar;
                 }
                 Some(H::Ligature(l)) => {
                     if l.font != hf {
@@ -523,6 +617,7 @@ fn discover(list: &[ds::Horizontal], dev: Dev) -> Vec<WordInfo> {
                     let cs: Vec<char> = l.original_chars.chars().collect();
                     if let Some(c0) = cs.first() {
                         bchar = Some(*c0);
+                        hyf_bchar = HyfBchar::Char(*c0);
                     }
                     if !cs.iter().all(|c| is_letter(*c)) {
                         break;
@@ -533,8 +628,11 @@ fn discover(list: &[ds::Horizontal], dev: Dev) -> Vec<WordInfo> {
                     }
                     letters.extend(cs);
                     bchar = None;
+                    hyf_bchar = if l.includes_right_boundary { HyfBchar::FontBchar } else { HyfBchar::NonChar };
                 }
-                Some(H::Kern(k)) if k.kind == ds::KernKind::Normal => {}
+                Some(H::Kern(k)) if k.kind == ds::KernKind::Normal => {
+                    hyf_bchar = HyfBchar::FontBchar;
+                }
                 _ => break,
             }
             last = s;
@@ -567,6 +665,7 @@ fn discover(list: &[ds::Horizontal], dev: Dev) -> Vec<WordInfo> {
             _ => false,
         };
         words.push(WordInfo {
+            glue: g,
             first,
             last,
             font: hf,
@@ -574,12 +673,156 @@ fn discover(list: &[ds::Horizontal], dev: Dev) -> Vec<WordInfo> {
             before,
             ha_char,
             bchar,
+            hyf_bchar,
             tried,
             cut_at_63: cut,
             prefix_has_char,
         });
     }
     words
+}
+
+// ---------------------------------------------------------------------------------------------
+// TeX's own result (models::tex_hyph): the list TeX 903-918 builds for every tried word
+
+struct TexLists {
+    /// the whole list as TeX leaves it
+    t: Vec<ds::Horizontal>,
+    /// `t` without the discretionaries TeX inserted: what TeX makes of the unhyphenated list
+    u: Vec<ds::Horizontal>,
+    /// indices (into the word list) of words that TeX rebuilds differently from the nodes that were
+    /// there (TeX's own anomalies, exactly)
+    anomalous: Vec<usize>,
+    /// words rebuilt / of these: words whose node before the first letter is rebuilt with them
+    rebuilt: usize,
+    rebuilt_with_ha: usize,
+    discs: usize,
+}
+
+fn to_u8(c: char) -> Result<u8, String> {
+    u8::try_from(c as u32).map_err(|_| format!("character {:?} outside 0..255", c))
+}
+
+fn model_node(n: &tex_hyph::Node, font: u32) -> ds::Horizontal {
+    fn elem(n: &tex_hyph::Node, font: u32) -> ds::DiscretionaryElem {
+        match n {
+            tex_hyph::Node::Char(c) => ds::Char { char: *c as char, font }.into(),
+            tex_hyph::Node::Lig { c, orig, lft, rt } => ds::Ligature {
+                char: *c as char,
+                font,
+                original_chars: orig.iter().map(|b| *b as char).collect::<String>().into(),
+                includes_left_boundary: *lft,
+                includes_right_boundary: *rt,
+            }
+            .into(),
+            tex_hyph::Node::Kern(w) => ds::Kern { width: common::Scaled(*w as i32), kind: ds::KernKind::Normal }.into(),
+            tex_hyph::Node::Disc { .. } => unreachable!("TeX never nests discretionaries"),
+        }
+    }
+    match n {
+        tex_hyph::Node::Disc { pre, post, replace } => ds::Discretionary {
+            pre_break: pre.iter().map(|x| elem(x, font)).collect(),
+            post_break: post.iter().map(|x| elem(x, font)).collect(),
+            replace_count: *replace as u32,
+        }
+        .into(),
+        other => elem(other, font).into(),
+    }
+}
+
+/// The word as TeX 903 sees it.
+fn model_word(orig: &[ds::Horizontal], w: &WordInfo, allowed: &[usize], raw: &RawFont) -> Result<tex_hyph::Word, String> {
+    let letters = w.letters.iter().map(|c| to_u8(*c)).collect::<Result<Vec<u8>, String>>()?;
+    let ha = match &orig[w.first - 1] {
+        ds::Horizontal::Char(c) => {
+            if c.font == w.font {
+                tex_hyph::Ha::Char(to_u8(c.char)?)
+            } else {
+                tex_hyph::Ha::OtherFont
+            }
+        }
+        ds::Horizontal::Ligature(l) => {
+            if l.font == w.font {
+                tex_hyph::Ha::Lig { c: to_u8(l.char)?, orig: l.original_chars.chars().map(to_u8).collect::<Result<Vec<u8>, String>>()?, lft: l.includes_left_boundary }
+            } else {
+                tex_hyph::Ha::OtherFont
+            }
+        }
+        _ => tex_hyph::Ha::NonChar,
+    };
+    let hyf_bchar = match w.hyf_bchar {
+        HyfBchar::NonChar => tex_hyph::NON_CHAR,
+        HyfBchar::FontBchar => raw.right_boundary_char().map(|c| c as u16).unwrap_or(tex_hyph::NON_CHAR),
+        HyfBchar::Char(c) => to_u8(c)? as u16,
+    };
+    Ok(tex_hyph::Word {
+        letters,
+        hyf: allowed.to_vec(),
+        ha,
+        first_is_lft_lig: matches!(&orig[w.first], ds::Horizontal::Ligature(l) if l.includes_left_boundary),
+        hyf_bchar,
+        hyf_char: b'-',
+        hyf_char_exists: true,
+    })
+}
+
+fn tex_lists(b: &Built, words: &[WordInfo], lex: &Lex, lmin: i32, rmin: i32, dev: tex_hyph::Deviations) -> Result<TexLists, String> {
+    let orig = &b.orig;
+    let Some(scale) = b.scale else { return Err("design size outside TeX's range".into()) };
+    let scale_fn = |fw: i32| tfm_arith::store_scaled(fw, &scale).unwrap_or(0);
+    let font = tex_hyph::Font { raw: &b.raw, scale: &scale_fn };
+    let mut r = TexLists { t: Vec::with_capacity(orig.len() + 8), u: Vec::with_capacity(orig.len()), anomalous: vec![], rebuilt: 0, rebuilt_with_ha: 0, discs: 0 };
+    let mut i = 0usize;
+    for (wi, w) in words.iter().enumerate() {
+        if !w.tried {
+            continue;
+        }
+        let allowed = permitted(w, lex, lmin, rmin);
+        if allowed.is_empty() {
+            continue; // TeX 902
+        }
+        let mw = model_word(orig, w, &allowed, &b.raw)?;
+        let rb = tex_hyph::hyphenate(&font, &mw, dev)?;
+        if rb.forgot_disc {
+            return Err("a discretionary would replace more than 127 nodes".into());
+        }
+        let start = if rb.replaces_ha { w.first - 1 } else { w.first };
+        if start < i {
+            return Err("words overlap".into());
+        }
+        r.t.extend_from_slice(&orig[i..start]);
+        r.u.extend_from_slice(&orig[i..start]);
+        let u0 = r.u.len();
+        for n in &rb.nodes {
+            let h = model_node(n, w.font);
+            if matches!(n, tex_hyph::Node::Disc { .. }) {
+                r.discs += 1;
+            } else {
+                r.u.push(h.clone());
+            }
+            r.t.push(h);
+        }
+        let same = r.u.len() - u0 == w.last + 1 - start && r.u[u0..].iter().zip(&orig[start..=w.last]).all(|(a, b)| node_eq(a, b));
+        if !same {
+            r.anomalous.push(wi);
+        }
+        r.rebuilt += 1;
+        r.rebuilt_with_ha += rb.replaces_ha as usize;
+        i = w.last + 1;
+    }
+    r.t.extend_from_slice(&orig[i..]);
+    r.u.extend_from_slice(&orig[i..]);
+    Ok(r)
+}
+
+fn lists_eq(a: &[ds::Horizontal], b: &[ds::Horizontal]) -> bool {
+    a.len() == b.len() && a.iter().zip(b).all(|(x, y)| node_eq(x, y))
+}
+
+/// First difference between two lists, for messages.
+fn first_diff(a: &[ds::Horizontal], b: &[ds::Horizontal]) -> String {
+    let k = a.iter().zip(b).position(|(x, y)| !node_eq(x, y)).unwrap_or(a.len().min(b.len()));
+    format!("first difference at node {}: {} vs {}", k, a.get(k).map(show).unwrap_or_else(|| "end of list".into()), b.get(k).map(show).unwrap_or_else(|| "end of list".into()))
 }
 
 // ---------------------------------------------------------------------------------------------
@@ -729,6 +972,8 @@ struct Report {
     bchar_word: usize,
     ha_char_word: usize,
     exact_words: usize,
+    /// (word index, letter position) of every inserted discretionary
+    positions: Vec<(usize, usize)>,
 }
 
 #[allow(clippy::too_many_arguments)]
@@ -740,7 +985,8 @@ fn oracle_lists(orig: &[ds::Horizontal], out: &[ds::Horizontal], words: &[WordIn
     // (ii) and attribution of each inserted discretionary to a tried word
     let mut found: Vec<Vec<(usize, usize, usize)>> = vec![vec![]; words.len()]; // (position, span start, span end) in letters
     for x in &ins {
-        let Some((wi, w)) = words.iter().enumerate().find(|(_, w)| w.tried && x.at + (w.ha_char as usize) >= w.first && x.at <= w.last + 1) else {
+        let lead = |w: &WordInfo| if dev.anomaly_reference { (0..w.first).rev().take_while(|&k| matches!(&orig[k], ds::Horizontal::Kern(kn) if kn.kind == ds::KernKind::Normal)).count() } else { 0 };
+        let Some((wi, w)) = words.iter().enumerate().find(|(_, w)| w.tried && x.at + (w.ha_char as usize) + lead(w) >= w.first && x.at <= w.last + 1) else {
             return Err(format!(
                 "(iii) discretionary {} inserted before original node {} which is in no word TeX would try",
                 show(&ds::Horizontal::Discretionary(x.d.clone())),
@@ -785,7 +1031,7 @@ fn oracle_lists(orig: &[ds::Horizontal], out: &[ds::Horizontal], words: &[WordIn
             return Err(ctx(format!("(ii) the {} separated from the implicit kern that follows it (original node {})", if x.rc == 0 { "discretionary stands between a character and the kern; the character is" } else { "replaced nodes end before a kern; the last of them is" }, after)));
         }
         // (a word rebuilt from the left boundary under FLAG_LB can begin with the boundary's kern)
-        if x.rc > 0 && !dev.lb_always && matches!(&orig[x.at], ds::Horizontal::Kern(_)) {
+        if x.rc > 0 && !dev.lb_always && !dev.anomaly_reference && matches!(&orig[x.at], ds::Horizontal::Kern(_)) {
             return Err(ctx("(ii) the replaced nodes begin with a kern".into()));
         }
         let k0 = x.at.max(w.first) - w.first;
@@ -854,6 +1100,7 @@ fn oracle_lists(orig: &[ds::Horizontal], out: &[ds::Horizontal], words: &[WordIn
             rep.word_after_letterless_prefix_with_positions += 1;
         }
         let got = &found[wi];
+        rep.positions.extend(got.iter().map(|g| (wi, g.0)));
         for (k, &(p, _, _)) in got.iter().enumerate() {
             if !allowed.contains(&p) {
                 return Err(format!(
@@ -1014,7 +1261,31 @@ fn expected_simple(w: &WordInfo, orig: &[ds::Horizontal], allowed: &[usize], rul
 ///      is an implicit kern and the first letter node is a ligature that includes the left boundary,
 ///      TeX 903 (`found2`) keeps the kern and rebuilds the word from the boundary, which produces the
 ///      boundary's kern a second time.
-fn tex_anomaly(orig: &[ds::Horizontal], words: &[WordInfo], rules: &[Rule], lex: &Lex, lmin: i32, rmin: i32) -> Option<&'static str> {
+#[derive(Debug, Clone, Copy, PartialEq, Eq)]
+enum Anomaly {
+    A,
+    B,
+    C,
+}
+
+impl Anomaly {
+    fn class(self) -> &'static str {
+        match self {
+            Anomaly::A => "tex_anomaly:a(ligature_between_word_end_and_next_char)",
+            Anomaly::B => "tex_anomaly:b(trailing_kern_of_next_fonts_left_boundary)",
+            Anomaly::C => "tex_anomaly:c(kern_before_left_boundary_ligature_doubled)",
+        }
+    }
+    fn why(self) -> &'static str {
+        match self {
+            Anomaly::A => "TeX anomaly (a): ligature between word end and following character",
+            Anomaly::B => "TeX anomaly (b): the kern after the word may belong to the next font's left boundary",
+            Anomaly::C => "TeX anomaly (c): implicit kern before a word that starts with a left-boundary ligature is produced twice",
+        }
+    }
+}
+
+fn tex_anomaly(orig: &[ds::Horizontal], words: &[WordInfo], rules: &[Rule], lex: &Lex, lmin: i32, rmin: i32) -> Option<Anomaly> {
     for w in words {
         if !w.tried || permitted(w, lex, lmin, rmin).is_empty() {
             continue;
@@ -1022,7 +1293,7 @@ fn tex_anomaly(orig: &[ds::Horizontal], words: &[WordInfo], rules: &[Rule], lex:
         if w.first > 0 {
             if let (ds::Horizontal::Kern(k), ds::Horizontal::Ligature(l)) = (&orig[w.first - 1], &orig[w.first]) {
                 if k.kind == ds::KernKind::Normal && l.includes_left_boundary {
-                    return Some("TeX anomaly: implicit kern before a word that starts with a left-boundary ligature is produced twice");
+                    return Some(Anomaly::C);
                 }
             }
         }
@@ -1034,19 +1305,40 @@ fn tex_anomaly(orig: &[ds::Horizontal], words: &[WordInfo], rules: &[Rule], lex:
             };
             if let Some(c) = next_char {
                 if rules.iter().any(|r| r.l.is_none() && (r.r == c || r.lig.is_some())) {
-                    return Some("TeX anomaly: the kern after the word may belong to the next font's left boundary");
+                    return Some(Anomaly::B);
                 }
             }
         }
         let Some(b) = w.bchar else { continue };
-        // characters that can stand left of the boundary when the end of the word is reached: its
-        // letters and everything ligature rules can make of them (closure over the rule table)
-        let mut reach: BTreeSet<char> = w.letters.iter().copied().collect();
+        // What can stand left of the boundary when the end of the word is reached: the glyph of the
+        // last node that carries letters of the word, those letters themselves (a rule such as
+        // "a, -> _w,^" made the glyph w out of the letter a BECAUSE of the following character, and
+        // fires again) and everything ligature rules can make of them (closure over the rule table;
+        // inserted characters after that node - unit test right_boundary_char_override_6 - are in the
+        // closure). The letters of earlier nodes never meet the boundary.
+        let Some(end_node) = orig[w.first..=w.last].iter().rev().find(|n| match n {
+            ds::Horizontal::Char(_) => true,
+            ds::Horizontal::Ligature(l) => !l.original_chars.is_empty(),
+            _ => false,
+        }) else {
+            continue;
+        };
+        let mut reach: BTreeSet<char> = BTreeSet::new();
+        match end_node {
+            ds::Horizontal::Char(c) => {
+                reach.insert(c.char);
+            }
+            ds::Horizontal::Ligature(l) => {
+                reach.insert(l.char);
+                reach.extend(l.original_chars.chars());
+            }
+            _ => {}
+        }
         loop {
             let before = reach.len();
             for r in rules {
-                if let Some(z) = r.lig {
-                    if r.l.map_or(true, |l| reach.contains(&l)) {
+                if let (Some(z), Some(l)) = (r.lig, r.l) {
+                    if reach.contains(&l) {
                         reach.insert(z);
                     }
                 }
@@ -1056,7 +1348,7 @@ fn tex_anomaly(orig: &[ds::Horizontal], words: &[WordInfo], rules: &[Rule], lex:
             }
         }
         if rules.iter().any(|r| r.lig.is_some() && r.r == b && matches!(r.l, Some(l) if reach.contains(&l))) {
-            return Some("TeX anomaly: ligature between word end and following character");
+            return Some(Anomaly::A);
         }
     }
     None
@@ -1086,6 +1378,262 @@ fn apply_report(case: &mut Case, r: &Report) -> bool {
     r.disc_inside_ligature > 0 || r.disc_next_to_kern > 0
 }
 
+fn kind_name(n: Option<&ds::Horizontal>) -> &'static str {
+    match n {
+        None => "end_of_list",
+        Some(ds::Horizontal::Char(_)) => "char",
+        Some(ds::Horizontal::Ligature(_)) => "ligature",
+        Some(ds::Horizontal::HBox(_)) => "hbox",
+        Some(ds::Horizontal::VBox(_)) => "vbox",
+        Some(ds::Horizontal::Rule(_)) => "rule",
+        Some(ds::Horizontal::Mark(_)) => "mark",
+        Some(ds::Horizontal::Insertion(_)) => "insertion",
+        Some(ds::Horizontal::Adjust(_)) => "adjust",
+        Some(ds::Horizontal::Discretionary(_)) => "discretionary",
+        Some(ds::Horizontal::Whatsit(_)) => "whatsit",
+        Some(ds::Horizontal::Math(ds::Math::Before)) => "math_on",
+        Some(ds::Horizontal::Math(ds::Math::After)) => "math_off",
+        Some(ds::Horizontal::Glue(_)) => "glue",
+        Some(ds::Horizontal::Penalty(_)) => "penalty",
+        Some(ds::Horizontal::Kern(k)) => match k.kind {
+            ds::KernKind::Normal => "implicit_kern",
+            ds::KernKind::Explicit => "explicit_kern",
+            ds::KernKind::Accent => "accent_kern",
+            ds::KernKind::Math => "math_kern",
+        },
+    }
+}
+
+fn starts_with_letter(n: Option<&ds::Horizontal>) -> bool {
+    match n {
+        Some(ds::Horizontal::Char(c)) => is_letter(c.char),
+        Some(ds::Horizontal::Ligature(l)) => l.original_chars.chars().next().is_some_and(is_letter),
+        _ => false,
+    }
+}
+
+/// Class counters for the shapes of the generated list (what decides TeX 896, 897, 899 and 903); they
+/// only prove that the generators reach the shapes, no verdict depends on them.
+fn shape_classes(case: &mut Case, b: &Built, words: &[WordInfo], lex: &Lex, lmin: i32, rmin: i32) {
+    let orig = &b.orig;
+    // TeX 896: which node kind stopped a prefix scan directly before a letter
+    for (g, n) in orig.iter().enumerate() {
+        if !matches!(n, ds::Horizontal::Glue(_)) {
+            continue;
+        }
+        let mut s = g + 1;
+        loop {
+            match orig.get(s) {
+                Some(ds::Horizontal::Char(c)) if !is_letter(c.char) => {}
+                Some(ds::Horizontal::Ligature(l)) if !l.original_chars.chars().next().is_some_and(is_letter) => {}
+                Some(ds::Horizontal::Kern(k)) if k.kind == ds::KernKind::Normal => {}
+                Some(ds::Horizontal::Whatsit(_)) => {}
+                Some(ds::Horizontal::Char(_)) | Some(ds::Horizontal::Ligature(_)) | None => break,
+                other => {
+                    if starts_with_letter(orig.get(s + 1)) {
+                        case.class(match kind_name(other) {
+                            "hbox" => "896_attempt_ended_before_a_letter_by:hbox",
+                            "vbox" => "896_attempt_ended_before_a_letter_by:vbox",
+                            "rule" => "896_attempt_ended_before_a_letter_by:rule",
+                            "mark" => "896_attempt_ended_before_a_letter_by:mark",
+                            "insertion" => "896_attempt_ended_before_a_letter_by:insertion",
+                            "adjust" => "896_attempt_ended_before_a_letter_by:adjust",
+                            "discretionary" => "896_attempt_ended_before_a_letter_by:discretionary",
+                            "math_on" => "896_attempt_ended_before_a_letter_by:math_on",
+                            "math_off" => "896_attempt_ended_before_a_letter_by:math_off",
+                            "glue" => "896_attempt_ended_before_a_letter_by:glue",
+                            "penalty" => "896_attempt_ended_before_a_letter_by:penalty",
+                            "explicit_kern" => "896_attempt_ended_before_a_letter_by:explicit_kern",
+                            "accent_kern" => "896_attempt_ended_before_a_letter_by:accent_kern",
+                            "math_kern" => "896_attempt_ended_before_a_letter_by:math_kern",
+                            _ => "896_attempt_ended_before_a_letter_by:other",
+                        });
+                    }
+                    break;
+                }
+            }
+            s += 1;
+        }
+    }
+    for w in words {
+        if permitted(w, lex, lmin, rmin).is_empty() {
+            continue;
+        }
+        // TeX 897: what ended the word; TeX 899: which node decided
+        let ender = orig.get(w.last + 1);
+        let mut t = w.last + 1;
+        while matches!(orig.get(t), Some(ds::Horizontal::Char(_)) | Some(ds::Horizontal::Ligature(_))) || matches!(orig.get(t), Some(ds::Horizontal::Kern(k)) if k.kind == ds::KernKind::Normal) {
+            t += 1;
+        }
+        case.class(match (w.tried, kind_name(orig.get(t))) {
+            (true, "end_of_list") => "899_hyphenable_word_allowed_by:end_of_list",
+            (true, "glue") => "899_hyphenable_word_allowed_by:glue",
+            (true, "penalty") => "899_hyphenable_word_allowed_by:penalty",
+            (true, "whatsit") => "899_hyphenable_word_allowed_by:whatsit",
+            (true, "mark") => "899_hyphenable_word_allowed_by:mark",
+            (true, "insertion") => "899_hyphenable_word_allowed_by:insertion",
+            (true, "adjust") => "899_hyphenable_word_allowed_by:adjust",
+            (true, "explicit_kern") => "899_hyphenable_word_allowed_by:explicit_kern",
+            (true, "accent_kern") => "899_hyphenable_word_allowed_by:accent_kern",
+            (true, "math_kern") => "899_hyphenable_word_allowed_by:math_kern",
+            (false, "hbox") => "899_hyphenable_word_blocked_by:hbox",
+            (false, "vbox") => "899_hyphenable_word_blocked_by:vbox",
+            (false, "rule") => "899_hyphenable_word_blocked_by:rule",
+            (false, "discretionary") => "899_hyphenable_word_blocked_by:discretionary",
+            (false, "math_on") => "899_hyphenable_word_blocked_by:math_on",
+            (false, "math_off") => "899_hyphenable_word_blocked_by:math_off",
+            _ => "899_decided_by:unexpected_kind",
+        });
+        case.class_if(t > w.last + 1, "899_walks_over_chars_before_the_deciding_node");
+        if !w.tried {
+            continue;
+        }
+        case.class_if(matches!(ender, Some(ds::Horizontal::Char(c)) if c.font != w.font) || matches!(ender, Some(ds::Horizontal::Ligature(l)) if l.font != w.font), "hyphenable_word_ended_by_font_change");
+        case.class_if(w.cut_at_63 && matches!(ender, Some(ds::Horizontal::Ligature(l)) if l.font == w.font && l.original_chars.chars().all(is_letter)), "ligature_straddles_letter_63");
+        case.class_if(orig[w.glue + 1..w.first].iter().any(|n| matches!(n, ds::Horizontal::Whatsit(_))), "whatsit_between_glue_and_hyphenable_word");
+        case.class_if(matches!(orig[w.last], ds::Horizontal::Kern(_)), "hyphenable_word_absorbs_trailing_kern");
+        case.class_if(w.hyf_bchar == HyfBchar::FontBchar && b.raw.right_boundary_char().is_some(), "hyf_bchar_is_font_boundary_char");
+        // the token before the glue has characters but no letter ("3.0 Contents")
+        let mut p = w.glue;
+        let (mut chars, mut letters) = (0, 0);
+        while p > 0 && !matches!(orig[p - 1], ds::Horizontal::Glue(_)) {
+            p -= 1;
+            match &orig[p] {
+                ds::Horizontal::Char(c) => {
+                    chars += 1;
+                    letters += is_letter(c.char) as usize;
+                }
+                ds::Horizontal::Ligature(l) => {
+                    chars += 1;
+                    letters += l.original_chars.chars().any(is_letter) as usize;
+                }
+                _ => {}
+            }
+        }
+        case.class_if(chars > 0 && letters == 0 && p > 0, "hyphenable_word_after_letterless_token_and_glue");
+        if w.ha_char {
+            let glyph = match &orig[w.first - 1] {
+                ds::Horizontal::Char(c) => Some(c.char),
+                ds::Horizontal::Ligature(l) => Some(l.char),
+                _ => None,
+            };
+            let first_letter = w.letters[0];
+            let rule = match (glyph.and_then(|g| u8::try_from(g as u32).ok()), u8::try_from(first_letter as u32).ok()) {
+                (Some(g), Some(f)) => b.raw.lookup(Some(g), f).is_some(),
+                _ => false,
+            };
+            case.class_if(rule, "hyphenable_word_preceded_by_char_with_rule_for_first_letter");
+            case.class_if(matches!(&orig[w.first - 1], ds::Horizontal::Ligature(l) if l.original_chars.is_empty()), "hyphenable_word_preceded_by_inserted_ligature_char");
+        }
+    }
+    // the first word of the list is not preceded by glue: TeX never tries it
+    if starts_with_letter(orig.first()) {
+        let mut probe: Vec<ds::Horizontal> = Vec::with_capacity(orig.len() + 1);
+        probe.push(ds::Glue { value: common::Glue::ZERO, kind: ds::GlueKind::Normal }.into());
+        let end = orig.iter().position(|n| matches!(n, ds::Horizontal::Glue(_))).unwrap_or(orig.len());
+        probe.extend_from_slice(&orig[..end]);
+        let ws = discover(&probe, Dev::default());
+        case.class("list_starts_with_a_letter");
+        case.class_if(ws.iter().any(|w| w.first == 1 && w.tried && !permitted(w, lex, lmin, rmin).is_empty()), "first_word_of_list_hyphenable_but_not_after_glue");
+    }
+}
+
+/// The case is decided by the deviating TeX model of a listed finding (KF-C14-1: the node before the
+/// word is ignored if it is a character or ligature of the word's font): either the deviating model
+/// builds the implementation's list node for node, or the stated clauses (i)-(iv) hold against the
+/// deviating model's list without its discretionaries (the finding is about WHICH nodes the word is
+/// rebuilt to; differences that only clause (v) sees are no violation, see `differs_classes`).
+#[allow(clippy::too_many_arguments)]
+fn known_by_model(ctx: &Known, b: &Built, out: &[ds::Horizontal], words: &[WordInfo], lex: &Lex, lmin: i32, rmin: i32, simple: Option<&[Rule]>, case: &mut Case) -> Option<&'static str> {
+    if !ctx.known(FLAG_START) {
+        return None;
+    }
+    // The run the finding speaks of is the implementation's: it starts at the first letter AND ends at
+    // the font's boundary character where TeX 897 has hyf_bchar=non_char. The second detail shows in
+    // the main list only when the word is rebuilt to other nodes than were there, i.e. only together
+    // with this finding (on its own it changes post-break lists only, which the statement does not
+    // cover), so it is tried as a variant of the same deviation.
+    for (k, dev) in [tex_hyph::Deviations { ha_char_ignored: true, non_char_is_font_bchar: false }, tex_hyph::Deviations { ha_char_ignored: true, non_char_is_font_bchar: true }].into_iter().enumerate() {
+        let Ok(m2) = tex_lists(b, words, lex, lmin, rmin, dev) else { continue };
+        if lists_eq(out, &m2.t) {
+            case.class_if(k == 1, "known:rebuilt_run_ends_at_font_boundary_char");
+            return Some(FLAG_START);
+        }
+        let w2 = discover(&m2.u, Dev::default());
+        if let Ok(r) = oracle_lists(&m2.u, out, &w2, lex, lmin, rmin, Dev { anomaly_reference: true, ..Dev::default() }, simple) {
+            apply_report(case, &r);
+            case.class("known:with_differences_only_clause_v_sees");
+            case.class_if(k == 1, "known:rebuilt_run_ends_at_font_boundary_char");
+            return Some(FLAG_START);
+        }
+    }
+    None
+}
+
+/// `out` satisfies the stated clauses but is not TeX's list `t`: which part of the discretionaries
+/// differs. Both lists have the same non-discretionary nodes; a discretionary is keyed by the number
+/// of such nodes before it.
+fn differs_classes(case: &mut Case, out: &[ds::Horizontal], t: &[ds::Horizontal]) {
+    fn discs(l: &[ds::Horizontal]) -> Vec<(usize, &ds::Discretionary)> {
+        let mut v = vec![];
+        let mut base = 0;
+        for n in l {
+            match n {
+                ds::Horizontal::Discretionary(d) => v.push((base, d)),
+                _ => base += 1,
+            }
+        }
+        v
+    }
+    case.class("differs_from_tex_reconstitution_but_stated_clauses_hold");
+    let (a, b) = (discs(out), discs(t));
+    case.class_if(a.len() != b.len(), "differs:number_of_discretionaries");
+    let (mut i, mut j) = (0, 0);
+    let (mut pre, mut post, mut rc, mut place) = (false, false, false, false);
+    while i < a.len() && j < b.len() {
+        match a[i].0.cmp(&b[j].0) {
+            std::cmp::Ordering::Less => {
+                place = true;
+                i += 1;
+            }
+            std::cmp::Ordering::Greater => {
+                place = true;
+                j += 1;
+            }
+            std::cmp::Ordering::Equal => {
+                pre |= a[i].1.pre_break != b[j].1.pre_break;
+                post |= a[i].1.post_break != b[j].1.post_break;
+                rc |= a[i].1.replace_count != b[j].1.replace_count;
+                i += 1;
+                j += 1;
+            }
+        }
+    }
+    place |= i < a.len() || j < b.len();
+    case.class_if(place, "differs:disc_before_vs_after_a_node_at_the_same_letter_position");
+    case.class_if(pre, "differs:pre_break_contents");
+    case.class_if(post, "differs:post_break_contents");
+    case.class_if(rc, "differs:replace_count");
+}
+
+/// Listed deviations of the clause oracle, smallest subsets first; each must explain the output completely.
+#[allow(clippy::too_many_arguments)]
+fn known_by_clauses(ctx: &Known, c: &LCase, b: &Built, out: &[ds::Horizontal], lex: &Lex, simple: Option<&[Rule]>, with_start: bool, case: &mut Case) -> Option<&'static str> {
+    let listed: Vec<&'static str> = [FLAG_D23, FLAG_LB, FLAG_RB, FLAG_REBUILD, FLAG_START].into_iter().filter(|f| ctx.known(f) && (with_start || *f != FLAG_START)).collect();
+    let mut subsets: Vec<Vec<&'static str>> = (1u32..(1 << listed.len())).map(|m| listed.iter().enumerate().filter(|(i, _)| m >> i & 1 == 1).map(|(_, f)| *f).collect()).collect();
+    subsets.sort_by_key(|v| v.len());
+    for sub in subsets {
+        let dev = Dev { abort_consumes: sub.contains(&FLAG_D23), lb_always: sub.contains(&FLAG_LB), from_first_letter: sub.contains(&FLAG_START), sync_rb_from_lb: sub.contains(&FLAG_RB), rebuild_all: sub.contains(&FLAG_REBUILD), anomaly_reference: false };
+        let (o2, w2) = deviating_original(&b.orig, &b.program, dev, lex, c.lmin, c.rmin);
+        if let Ok(r) = oracle_lists(&o2, out, &w2, lex, c.lmin, c.rmin, dev, simple) {
+            apply_report(case, &r);
+            case.class_if(sub.len() > 1, "known:several_flags_together");
+            return Some(sub[0]);
+        }
+    }
+    None
+}
+
 fn oracle_inner(ctx: &Known, c: &LCase, case: &mut Case) -> Verdict {
     let lex = match Lex::of(c) {
         Ok(l) => l,
@@ -1097,10 +1645,9 @@ fn oracle_inner(ctx: &Known, c: &LCase, case: &mut Case) -> Verdict {
     };
     let rules = font_rules(c);
     let words = discover(&b.orig, Dev::default());
-    if let Some(why) = tex_anomaly(&b.orig, &words, &rules, &lex, c.lmin, c.rmin) {
-        case.class("skipped:tex_itself_rebuilds_the_word_differently");
-        return Verdict::Skip(why);
-    }
+    shape_classes(case, &b, &words, &lex, c.lmin, c.rmin);
+    // The implementation runs on EVERY case, also on those the list oracle cannot judge: a panic (or a
+    // hang, see `guarded`) is a violation whatever TeX does with the word.
     let out = match panics::catch(|| run_impl(c, &b)) {
         Ok(o) => o,
         Err(p) => {
@@ -1115,28 +1662,159 @@ fn oracle_inner(ctx: &Known, c: &LCase, case: &mut Case) -> Verdict {
     case.note = Some(format!("{} => {}", render_case(c), show_list(&out)));
     if std::env::var("VP_C14_SHOW").is_ok() {
         eprintln!("{}\n  before: {}\n  after:  {}", render_case(c), show_list(&b.orig), show_list(&out));
+        for (name, dev) in [("TeX", tex_hyph::Deviations::default()), ("TeX with ha ignored", tex_hyph::Deviations { ha_char_ignored: true, ..Default::default() })] {
+            match tex_lists(&b, &words, &lex, c.lmin, c.rmin, dev) {
+                Ok(m) => eprintln!("  {name}: {}", show_list(&m.t)),
+                Err(e) => eprintln!("  {name}: model not applicable: {e}"),
+            }
+        }
     }
     let simple = if simple_font(&rules) { Some(&rules[..]) } else { None };
-    match oracle_lists(&b.orig, &out, &words, &lex, c.lmin, c.rmin, Dev::default(), simple) {
-        Ok(r) => {
-            let nt = apply_report(case, &r);
-            Verdict::pass(nt)
+    let heur = tex_anomaly(&b.orig, &words, &rules, &lex, c.lmin, c.rmin);
+    let fail = |m: String, tex: Option<&TexLists>| {
+        Verdict::Fail(format!(
+            "{m}\n  case: {}\n  before: {}\n  after:  {}{}",
+            render_case(c),
+            show_list(&b.orig),
+            show_list(&out),
+            tex.map(|t| format!("\n  TeX:    {}", show_list(&t.t))).unwrap_or_default()
+        ))
+    };
+    let model = match tex_lists(&b, &words, &lex, c.lmin, c.rmin, tex_hyph::Deviations::default()) {
+        Ok(m) => m,
+        Err(why) => {
+            // No exact expectation (characters beyond 255, ligature loop inside the model, or a
+            // discretionary that would replace more than 127 nodes: TeX 918 forgets such a discretionary,
+            // a limit of its node layout that the implementation does not share): the clause oracle
+            // alone, and TeX's anomalies as the rule table predicts them.
+            case.class(if why.contains("127") { "tex_model_not_applicable:disc_would_replace_more_than_127_nodes" } else { "tex_model_not_applicable" });
+            if std::env::var("VP_C14_DEBUG_ANOM").is_ok() {
+                eprintln!("MODEL-NA {why}: {}\n  before: {}\n  after:  {}", render_case(c), show_list(&b.orig), show_list(&out));
+            }
+            if let Some(a) = heur {
+                case.class(a.class());
+                return Verdict::Skip(a.why());
+            }
+            return match oracle_lists(&b.orig, &out, &words, &lex, c.lmin, c.rmin, Dev::default(), simple) {
+                Ok(r) => Verdict::pass(apply_report(case, &r)),
+                Err(m) => match known_by_clauses(ctx, c, &b, &out, &lex, simple, true, case) {
+                    Some(f) => Verdict::Known(f.into()),
+                    None => fail(m, None),
+                },
+            };
         }
-        Err(m) => {
-            // listed deviations, smallest subsets first; each must explain the output completely
-            let listed: Vec<&str> = [FLAG_D23, FLAG_LB, FLAG_RB, FLAG_REBUILD, FLAG_START].into_iter().filter(|f| ctx.known(f)).collect();
-            let mut subsets: Vec<Vec<&str>> = (1u32..(1 << listed.len())).map(|m| listed.iter().enumerate().filter(|(i, _)| m >> i & 1 == 1).map(|(_, f)| *f).collect()).collect();
-            subsets.sort_by_key(|v| v.len());
-            for sub in subsets {
-                let dev = Dev { abort_consumes: sub.contains(&FLAG_D23), lb_always: sub.contains(&FLAG_LB), from_first_letter: sub.contains(&FLAG_START), sync_rb_from_lb: sub.contains(&FLAG_RB), rebuild_all: sub.contains(&FLAG_REBUILD) };
-                let (o2, w2) = deviating_original(&b.orig, &b.program, dev, &lex, c.lmin, c.rmin);
-                if let Ok(r) = oracle_lists(&o2, &out, &w2, &lex, c.lmin, c.rmin, dev, simple) {
-                    apply_report(case, &r);
-                    case.class_if(sub.len() > 1, "known:several_flags_together");
-                    return Verdict::Known(sub[0].into());
+    };
+    case.class_if(model.rebuilt > 0, "tex_model:word_rebuilt");
+    case.class_if(model.rebuilt_with_ha > 0, "tex_model:word_rebuilt_from_the_node_before_it");
+    let equal = lists_eq(&out, &model.t);
+    // the stated clauses (i)-(iv) against the original list
+    let stated = oracle_lists(&b.orig, &out, &words, &lex, c.lmin, c.rmin, Dev::default(), simple);
+    if !model.anomalous.is_empty() {
+        // TeX itself does not give back the original nodes of some word (exactly: the TeX model's list
+        // without its discretionaries differs from the original list). Clause (i) cannot be demanded of
+        // that word; what can be demanded is that the implementation keeps the original nodes, or that
+        // clauses (i)-(iv) hold against the nodes TeX rebuilds.
+        // (d), seen by the model only: the node before the word is a character of the word's font
+        // (typically one that a ligature rule inserted) with a rule for the first letter; TeX 903 starts
+        // from that node, so the rule fires a second time
+        let d = model.anomalous.iter().any(|&wi| {
+            let w = &words[wi];
+            w.ha_char
+                && match &b.orig[w.first - 1] {
+                    ds::Horizontal::Char(c) => Some(c.char),
+                    ds::Horizontal::Ligature(l) => Some(l.char),
+                    _ => None,
+                }
+                .and_then(|g| u8::try_from(g as u32).ok())
+                .zip(u8::try_from(w.letters[0] as u32).ok())
+                .is_some_and(|(g, f)| b.raw.lookup(Some(g), f).is_some())
+        });
+        case.class(match heur {
+            Some(a) => a.class(),
+            None if d => "tex_anomaly:d(rule_between_node_before_word_and_first_letter_fires_again)",
+            None => "tex_anomaly:other(found_by_the_tex_model_only)",
+        });
+        if heur.is_none() && !d && std::env::var("VP_C14_DEBUG_ANOM").is_ok() {
+            eprintln!("ANOM-OTHER {}\n  before: {}\n  after:  {}\n  TeX:    {}", render_case(c), show_list(&b.orig), show_list(&out), show_list(&model.t));
+        }
+        if equal {
+            case.class("tex_anomaly:reproduced_node_for_node");
+            return Verdict::pass(false);
+        }
+        if let Ok(r) = &stated {
+            case.class("tex_anomaly:not_reproduced_original_nodes_kept");
+            if std::env::var("VP_C14_DEBUG_ANOM").is_ok() {
+                eprintln!("ANOM-KEPT {}\n  before: {}\n  after:  {}\n  TeX:    {}", render_case(c), show_list(&b.orig), show_list(&out), show_list(&model.t));
+            }
+            return Verdict::pass(apply_report(case, r));
+        }
+        // TeX's rebuilt nodes, discretionaries that differ from TeX's only in what clause (v) sees
+        let wu = discover(&model.u, Dev::default());
+        if let Ok(r) = oracle_lists(&model.u, &out, &wu, &lex, c.lmin, c.rmin, Dev { anomaly_reference: true, ..Dev::default() }, simple) {
+            match oracle_lists(&model.u, &model.t, &wu, &lex, c.lmin, c.rmin, Dev { anomaly_reference: true, ..Dev::default() }, simple) {
+                Ok(rt) if rt.positions != r.positions => {
+                    return fail(format!("(iv, exact) discretionaries at [word, letter position] {:?}, TeX 913-916 keeps exactly {:?} of the permitted positions", r.positions, rt.positions), Some(&model));
+                }
+                Ok(_) => {}
+                Err(_) => case.class("inconclusive:clause_oracle_rejects_the_tex_model_list"),
+            }
+            case.class("tex_anomaly:rebuilt_nodes_reproduced_stated_clauses_hold_against_them");
+            differs_classes(case, &out, &model.t);
+            return Verdict::pass(apply_report(case, &r));
+        }
+        if let Some(f) = known_by_model(ctx, &b, &out, &words, &lex, c.lmin, c.rmin, simple, case) {
+            case.class("known:in_a_tex_anomaly_case");
+            return Verdict::Known(f.into());
+        }
+        return fail(
+            format!(
+                "TeX rebuilds a word of this list differently from the nodes that were there ({}); the implementation's list satisfies clauses (i)-(iv) neither against the original nodes [{}] nor against the nodes TeX rebuilds; {}",
+                heur.map(|a| a.why()).unwrap_or("no anomaly rule matched, the TeX model shows it"),
+                stated.as_ref().err().cloned().unwrap_or_default(),
+                first_diff(&out, &model.t)
+            ),
+            Some(&model),
+        );
+    }
+    case.class_if(heur.is_some(), "anomaly_rule_matched_but_tex_rebuilds_the_same_nodes");
+    match stated {
+        Ok(r) => {
+            if equal {
+                case.class_if(model.discs > 0, "equals_tex_model_list_with_discretionaries");
+            } else {
+                // Which permitted positions TeX 913-916 drops while the branches synchronise is part of
+                // "exactly the Liang positions" (clause (iv) alone only knows that a dropped position lies
+                // inside replaced letters): the SET of letter positions must be TeX's.
+                match oracle_lists(&b.orig, &model.t, &words, &lex, c.lmin, c.rmin, Dev::default(), simple) {
+                    Ok(rt) if rt.positions != r.positions => {
+                        return fail(format!("(iv, exact) discretionaries at [word, letter position] {:?}, TeX 913-916 keeps exactly {:?} of the permitted positions (the others are dropped while the branches synchronise)", r.positions, rt.positions), Some(&model));
+                    }
+                    Ok(_) => {}
+                    Err(_) => case.class("inconclusive:clause_oracle_rejects_the_tex_model_list"),
+                }
+                // Clause (v) alone: the stated property holds (original nodes kept, letters carried, exactly
+                // TeX's positions), the discretionaries are not built the way TeX 903-918 builds them.
+                // Counted, never a violation.
+                differs_classes(case, &out, &model.t);
+                if std::env::var("VP_C14_DEBUG_DIFF").is_ok() {
+                    eprintln!("DIFFERS {}\n  before: {}\n  after:  {}\n  TeX:    {}", render_case(c), show_list(&b.orig), show_list(&out), show_list(&model.t));
                 }
             }
-            Verdict::Fail(format!("{m}\n  case: {}\n  before: {}\n  after:  {}", render_case(c), show_list(&b.orig), show_list(&out)))
+            Verdict::pass(apply_report(case, &r))
+        }
+        Err(m) => {
+            if equal {
+                // two oracles disagree about the same list: never a verdict about the implementation
+                case.class("inconclusive:clause_oracle_rejects_the_tex_model_list");
+                return Verdict::Skip("inconclusive: the clause oracle rejects a list that equals the TeX model's list");
+            }
+            if let Some(f) = known_by_model(ctx, &b, &out, &words, &lex, c.lmin, c.rmin, simple, case) {
+                return Verdict::Known(f.into());
+            }
+            if let Some(f) = known_by_clauses(ctx, c, &b, &out, &lex, simple, false, case) {
+                return Verdict::Known(f.into());
+            }
+            fail(m, Some(&model))
         }
     }
 }
@@ -1225,6 +1903,22 @@ fn golden_inner(g: &Golden, case: &mut Case) -> Verdict {
     let words = discover(&b.orig, Dev::default());
     let anomaly = tex_anomaly(&b.orig, &words, &rules, &lex, c.lmin, c.rmin).is_some();
     case.class_if(anomaly, "tex_bchar_ligature_anomaly");
+    // 0. the TeX model (models::tex_hyph) must build TeX's own list node for node, anomalies included
+    match tex_lists(&b, &words, &lex, c.lmin, c.rmin, tex_hyph::Deviations::default()) {
+        Err(m) => return Verdict::Fail(format!("CALIBRATION: the TeX model does not apply to unit test {}: {m}", g.name)),
+        Ok(m) => {
+            if !lists_eq(&m.t, &tex) {
+                return Verdict::Fail(format!("CALIBRATION: the TeX model differs from TeX's list of unit test {}; {}
+  before: {}
+  model:  {}
+  TeX:    {}", g.name, first_diff(&m.t, &tex), show_list(&b.orig), show_list(&m.t), show_list(&tex)));
+            }
+            case.class_if(!m.anomalous.is_empty(), "tex_model_shows_anomaly");
+            // (the rule-table prediction only names the class; the model decides - a disagreement is
+            // counted, it says nothing about the implementation)
+            case.class_if(m.anomalous.is_empty() == anomaly, "anomaly_rule_and_tex_model_disagree");
+        }
+    }
     // 1. the oracle must accept TeX's own list
     let simple = if simple_font(&rules) { Some(&rules[..]) } else { None };
     case.class_if(simple.is_some(), "simple_font");
@@ -1253,12 +1947,31 @@ fn golden_inner(g: &Golden, case: &mut Case) -> Verdict {
 
 // ---------------------------------------------------------------------------------------------
 // Watchdog: the code under test contains open-ended loops (synchronisation, TeX 916). Every case
-// is evaluated on a helper thread; a case that does not come back within `HANG_LIMIT_S` is reported
-// as a violation instead of hanging the check. The helper is persistent (one per worker) so the
-// per-thread caches survive; after a hang it is abandoned.
+// is evaluated on a helper thread (one per worker, persistent, so the per-thread caches survive).
+// A case that has not come back after `HANG_LOOK_S` seconds of wall time is judged by the CPU time
+// its helper thread has burnt on it (Linux: /proc/self/task/<tid>/schedstat, else .../stat):
+//   * `HANG_CPU_S` seconds of CPU on one case (normal: under 10 ms) = it does not terminate: violation;
+//   * less than that (the machine is overloaded, the thread was not scheduled): keep waiting; after
+//     `HANG_GIVE_UP_S` seconds of wall time, or if the CPU time cannot be read, the case is
+//     INCONCLUSIVE: it is skipped and counted, the helper is replaced, later cases are evaluated
+//     normally; a second inconclusive case ends the whole run with exit code 2 (no verdict).
+// Wall time alone never produces a violation. After a CONFIRMED hang the remaining cases of the run
+// (and the shrinker's candidates) are skipped and counted, not passed.
 
-const HANG_LIMIT_S: u64 = 20;
+const HANG_LOOK_S: u64 = 20;
+const HANG_CPU_S: f64 = 10.0;
+const HANG_GIVE_UP_S: u64 = 600;
+
+/// Test hooks for the watchdog itself (`VP_C14_HANG_CPU_S`, `VP_C14_GIVE_UP_S`): other limits, so
+/// that the inconclusive path can be exercised in seconds. Never set in normal runs.
+fn hang_cpu_s() -> f64 {
+    std::env::var("VP_C14_HANG_CPU_S").ok().and_then(|v| v.parse().ok()).unwrap_or(HANG_CPU_S)
+}
+fn hang_give_up_s() -> u64 {
+    std::env::var("VP_C14_GIVE_UP_S").ok().and_then(|v| v.parse().ok()).unwrap_or(HANG_GIVE_UP_S)
+}
 static HUNG: std::sync::atomic::AtomicBool = std::sync::atomic::AtomicBool::new(false);
+static INCONCLUSIVE: std::sync::atomic::AtomicU32 = std::sync::atomic::AtomicU32::new(0);
 
 #[derive(Clone)]
 struct Known {
@@ -1289,18 +2002,38 @@ struct Reply {
 struct Helper {
     tx: std::sync::mpsc::Sender<Job>,
     rx: std::sync::mpsc::Receiver<Reply>,
+    /// kernel thread id of the helper (None: not on Linux / no procfs)
+    tid: Option<u64>,
 }
 
 thread_local! {
     static HELPER: RefCell<Option<Helper>> = const { RefCell::new(None) };
 }
 
+/// CPU seconds (user + system) a thread of this process has consumed so far.
+fn thread_cpu_seconds(tid: u64) -> Option<f64> {
+    if let Ok(s) = std::fs::read_to_string(format!("/proc/self/task/{tid}/schedstat")) {
+        if let Some(ns) = s.split_ascii_whitespace().next().and_then(|x| x.parse::<u64>().ok()) {
+            return Some(ns as f64 / 1e9);
+        }
+    }
+    // utime and stime (fields 14 and 15) in clock ticks; 100 per second on every Linux this runs on
+    let s = std::fs::read_to_string(format!("/proc/self/task/{tid}/stat")).ok()?;
+    let rest = &s[s.rfind(')')? + 1..];
+    let f: Vec<&str> = rest.split_ascii_whitespace().collect();
+    let (u, k) = (f.get(11)?.parse::<u64>().ok()?, f.get(12)?.parse::<u64>().ok()?);
+    Some((u + k) as f64 / 100.0)
+}
+
 fn spawn_helper(known: Known) -> Helper {
     let (tx, jrx) = std::sync::mpsc::channel::<Job>();
     let (rtx, rx) = std::sync::mpsc::channel::<Reply>();
+    let (ttx, trx) = std::sync::mpsc::channel::<Option<u64>>();
     std::thread::Builder::new()
         .stack_size(256 << 20)
         .spawn(move || {
+            let tid = std::fs::read_link("/proc/thread-self").ok().and_then(|p| p.file_name().and_then(|n| n.to_str().and_then(|n| n.parse::<u64>().ok())));
+            let _ = ttx.send(tid);
             for job in jrx {
                 let mut case = Case::default();
                 let r = panics::catch(|| match &job {
@@ -1317,13 +2050,17 @@ fn spawn_helper(known: Known) -> Helper {
             }
         })
         .expect("spawn helper");
-    Helper { tx, rx }
+    let tid = trx.recv_timeout(std::time::Duration::from_secs(HANG_GIVE_UP_S)).ok().flatten();
+    Helper { tx, rx, tid }
 }
 
 fn guarded(known: &Known, job: Job, what: String, case: &mut Case) -> Verdict {
-    if HUNG.load(std::sync::atomic::Ordering::SeqCst) && !case.replay {
-        // a hang was already reported; let the run (and the shrinker) finish at once
-        return Verdict::pass(false);
+    use std::sync::atomic::Ordering::SeqCst;
+    if HUNG.load(SeqCst) && !case.replay {
+        // a confirmed hang was already reported (the run fails); let the run and the shrinker finish at
+        // once, but never count such a case as passed
+        case.class("not_evaluated:after_a_confirmed_hang");
+        return Verdict::Skip("not evaluated: a non-terminating case was already reported in this run");
     }
     HELPER.with(|h| {
         let mut h = h.borrow_mut();
@@ -1331,24 +2068,53 @@ fn guarded(known: &Known, job: Job, what: String, case: &mut Case) -> Verdict {
             *h = Some(spawn_helper(known.clone()));
         }
         let hh = h.as_ref().unwrap();
+        let cpu0 = hh.tid.and_then(thread_cpu_seconds);
         if hh.tx.send(job).is_err() {
             *h = None;
             return Verdict::Fail("helper thread is gone".into());
         }
-        match hh.rx.recv_timeout(std::time::Duration::from_secs(HANG_LIMIT_S)) {
-            Ok(r) => {
-                case.classes = r.classes;
-                case.note = r.note;
-                r.verdict
-            }
-            Err(std::sync::mpsc::RecvTimeoutError::Timeout) => {
-                *h = None; // the helper is abandoned (it keeps spinning until the process exits)
-                HUNG.store(true, std::sync::atomic::Ordering::SeqCst);
-                Verdict::Fail(format!("no result within {HANG_LIMIT_S} s (normal cases take well under 10 ms): hyphenate does not seem to terminate\n  case: {what}"))
-            }
-            Err(std::sync::mpsc::RecvTimeoutError::Disconnected) => {
-                *h = None;
-                Verdict::Fail(format!("helper thread died\n  case: {what}"))
+        let mut waited = 0u64;
+        let mut slice = HANG_LOOK_S;
+        loop {
+            match hh.rx.recv_timeout(std::time::Duration::from_secs(slice)) {
+                Ok(r) => {
+                    case.classes = r.classes;
+                    case.note = r.note;
+                    return r.verdict;
+                }
+                Err(std::sync::mpsc::RecvTimeoutError::Timeout) => {
+                    waited += slice;
+                    slice = 5;
+                    let cpu = match (cpu0, hh.tid.and_then(thread_cpu_seconds)) {
+                        (Some(a), Some(b)) => Some(b - a),
+                        _ => None,
+                    };
+                    if let Some(used) = cpu {
+                        if used >= hang_cpu_s() {
+                            *h = None; // the helper is abandoned (it keeps spinning until the process exits)
+                            HUNG.store(true, SeqCst);
+                            return Verdict::Fail(format!("no result after {used:.1} s of CPU time on this one case (normal cases take well under 10 ms): hyphenate does not terminate\n  case: {what}"));
+                        }
+                    }
+                    if cpu.is_none() || waited >= hang_give_up_s() {
+                        *h = None;
+                        let n = INCONCLUSIVE.fetch_add(1, SeqCst) + 1;
+                        eprintln!(
+                            "C14 watchdog: INCONCLUSIVE case (no answer after {waited} s of wall time, CPU time of the helper on it: {}); case: {what}",
+                            cpu.map(|c| format!("{c:.2} s, below the {} s that prove a hang", hang_cpu_s())).unwrap_or_else(|| "unreadable".into())
+                        );
+                        if n >= 2 {
+                            eprintln!("C14 watchdog: second inconclusive case; the machine is too loaded for a verdict. Exit code 2 (inconclusive).");
+                            std::process::exit(2);
+                        }
+                        case.class("inconclusive:watchdog_wall_clock_without_cpu_proof");
+                        return Verdict::Skip("inconclusive: no answer in wall time, but too little CPU time used to call it a hang");
+                    }
+                }
+                Err(std::sync::mpsc::RecvTimeoutError::Disconnected) => {
+                    *h = None;
+                    return Verdict::Fail(format!("helper thread died\n  case: {what}"));
+                }
             }
         }
     })
@@ -1419,6 +2185,21 @@ fn alice_oracle(p: &BoxPair, case: &mut Case) -> Verdict {
     let lex = Lex { patterns: std::borrow::Cow::Borrowed(&ps[..]), exceptions: es.clone() };
     let rules: Vec<Rule> = CMR10_LIGS.iter().map(|&(l, r, z)| Rule { l: Some(l), r, lig: Some(z), plain: true }).collect();
     let words = discover(&orig, Dev::default());
+    // the TeX model must build TeX's own list node for node
+    let (file, program) = cmr10();
+    let built = Built { orig: orig.clone(), program, raw: cmr10_raw(), scale: tfm_arith::tex_scale(file.header.design_size.0) };
+    match tex_lists(&built, &words, &lex, 2, 3, tex_hyph::Deviations::default()) {
+        Err(m) => return Verdict::Fail(format!("CALIBRATION: the TeX model does not apply to alice box {}: {m}", p.index)),
+        Ok(m) => {
+            if !lists_eq(&m.t, &tex) {
+                return Verdict::Fail(format!("CALIBRATION: the TeX model differs from TeX's hyphenated list of alice box {}; {}
+  before: {}
+  model:  {}
+  TeX:    {}", p.index, first_diff(&m.t, &tex), show_list(&orig), show_list(&m.t), show_list(&tex)));
+            }
+            case.class_if(m.discs > 0, "tex_model_equals_tex_list_with_discretionaries");
+        }
+    }
     match oracle_lists(&orig, &tex, &words, &lex, 2, 3, Dev::default(), Some(&rules)) {
         Ok(r) => {
             let nt = apply_report(case, &r);
@@ -1506,6 +2287,37 @@ fn fixed_cases() -> Vec<LCase> {
         },
         sy("x aa, b", &["a, -> a^x,"], &[], 1, 1),
         sy("x a- b", &["a- -> _x^_"], &[], 1, 1),
+        // --- shapes added with the TeX 903-918 model; where the implementation builds the
+        // discretionaries differently from TeX (=:| ligature before the hyphen, pre-break at the left
+        // boundary, boundary kern at the end of a post-break) the stated clauses hold: counted, passes ---
+        // a font with BOTH boundaries: the left boundary ligature must open the post-break text
+        sy("x ba", &["z| -> _x|^", "|a -> |1^_"], &["b1a"], 1, 1),
+        // a ligature that replaces the left letter in view of the right one (=:|): the hyphen between
+        // them is passed inside the cut prefix, the pre-break text has the plain letter
+        sy("x aab", &["aa -> _x^a"], &["a1a"], 1, 1),
+        sy("x aab", &["aa -> _xa^"], &["a1a"], 1, 1),
+        // the pre-break text of a discretionary that replaces the first nodes of a word rebuilt from
+        // the left boundary starts at the boundary
+        sy("x ab", &["|a -> |x^_", "xb -> x[100]b"], &["a1b"], 1, 1),
+        sy("x aab", &["|a -> _x^_", "aa -> _w^_"], &["a1a"], 1, 1),
+        // hyf_bchar is non_char after a plain letter: no boundary kern at the end of the post-break text
+        sy("x aaa", &["aa -> _z^_", "z| -> z[7]|"], &["a1a"], 1, 2),
+        // ... but the font's boundary character after an implicit kern / a right-boundary ligature
+        sy("x aaa", &["aa -> _z^_", "z| -> z[7]|", "a| -> a[100]|"], &["a1a"], 1, 2),
+        sy("x aaa", &["aa -> _z^_", "z| -> z[7]|", "a| -> a^y|"], &["a1a"], 1, 2),
+        // TeX's anomalies, reproduced node for node: (a) in its mild form (only the boundary flag of the
+        // last ligature changes), (c) kern before a left-boundary ligature, (d) rule between an inserted
+        // character before the word and the first letter
+        sy("x aaa,", &["a, -> _w,^"], &["a1a"], 1, 1),
+        sy("x ba", &["|b -> _z^b", "zb -> zzb^"], &["b1a"], 1, 1),
+        // the first word of a list is never tried; a word after it is
+        cm("difficult difficult", None, &[], 2, 3),
+        cm("difficult", None, &[], 2, 3),
+        // node kinds that decide TeX 896 / 899
+        LCase { rules: None, patterns: None, exceptions: vec![], lmin: 2, rmin: 3, items: vec![Item::Word("x".into()), Item::Space, Item::Word("difficult".into()), Item::Node(6), Item::Word("difficult".into()), Item::Space, Item::Node(6), Item::Word("difficult".into())] },
+        LCase { rules: None, patterns: None, exceptions: vec![], lmin: 2, rmin: 3, items: vec![Item::Word("x".into()), Item::Space, Item::Word("difficult".into()), Item::Node(7), Item::Space, Item::Word("difficult".into()), Item::Node(8), Item::Space, Item::Word("difficult".into()), Item::Node(9), Item::Space, Item::Word("difficult".into()), Item::Node(10)] },
+        LCase { rules: None, patterns: None, exceptions: vec![], lmin: 2, rmin: 3, items: vec![Item::Word("x".into()), Item::Space, Item::Word("dis".into()), Item::Node(11), Item::Word("cretionary".into()), Item::Space, Item::Word("difficult".into()), Item::Node(12), Item::Word("e".into()), Item::Space, Item::Word("difficult".into()), Item::Node(13)] },
+        LCase { rules: None, patterns: None, exceptions: vec![], lmin: 2, rmin: 3, items: vec![Item::Word("x".into()), Item::Space, Item::Word("diffi".into()), Item::Font(1), Item::Word("cult".into()), Item::Node(6), Item::Space, Item::Word("diffi".into()), Item::Font(0), Item::Word("cult".into()), Item::Node(9)] },
     ]
 }
 
@@ -1567,13 +2379,28 @@ fn apply_case(s: &str, casing: u8) -> String {
     }
 }
 
+/// Number of directly pushed node kinds (`Item::Node` codes 0..NODE_KINDS, see `pushed_node`).
+const NODE_KINDS: u8 = 14;
+
+/// After the word of a token: a directly pushed node (TeX 899 decides whether the word may be
+/// hyphenated), in one case of four followed by a second word without a space, so that the node
+/// stands INSIDE what the text treats as one word ("ab\mark{}cd", "dis\-cretionary").
+fn node_after_word(t: &RawToken, items: &mut Vec<Item>, allow_nodes: bool, tail: &str) {
+    if allow_nodes && t.hyph_mask >> 60 <= 2 {
+        items.push(Item::Node(((t.hyph_mask >> 52) % NODE_KINDS as u64) as u8));
+        if (t.hyph_mask >> 50) & 3 == 0 && !tail.is_empty() {
+            items.push(Item::Word(tail.to_string()));
+        }
+    }
+}
+
 /// Turns one raw token into items (and perhaps an exception) for cmr10 text.
 fn cm_token(t: &RawToken, items: &mut Vec<Item>, exceptions: &mut Vec<String>, allow_nodes: bool) {
     const ALPHA: &[u8] = b"fffiillaeeoutnsrvwybcdg";
     match t.before % 32 {
         0 => items.push(Item::Font(1)),
         1 => items.push(Item::Font(0)),
-        2 if allow_nodes => items.push(Item::Node(t.split % 6)),
+        2 | 4 if allow_nodes => items.push(Item::Node(t.split % NODE_KINDS)),
         3 => items.push(Item::Space),
         _ => {}
     }
@@ -1610,14 +2437,13 @@ fn cm_token(t: &RawToken, items: &mut Vec<Item>, exceptions: &mut Vec<String>, a
             items.push(Item::Word(word[..k].to_string()));
             items.push(Item::Font(((t.split / 16) % 2) as u8 ^ 1));
             items.push(Item::Word(word[k..].to_string()));
+            // (TeX 899 walks over the other font's characters to the node that decides)
+            node_after_word(t, items, allow_nodes, "");
             return;
         }
     }
     items.push(Item::Word(word));
-    // a node directly after the word (TeX 899 decides whether the word may be hyphenated)
-    if allow_nodes && t.hyph_mask >> 60 == 0 {
-        items.push(Item::Node(((t.hyph_mask >> 56) % 6) as u8));
-    }
+    node_after_word(t, items, allow_nodes, pick(CORES, *t.core.last().unwrap()));
 }
 
 /// No two `Word` items are adjacent without a space, font switch or node between them: TeX joins
@@ -1666,19 +2492,23 @@ fn cm_strategy() -> impl Strategy<Value = LCase> {
         mins(),
         any::<u8>(),
         prop::collection::vec((any::<u16>(), 0..6u8), 0..7),
-        any::<bool>(),
+        0..8u8,
     )
-        .prop_map(|(toks, (lmin, rmin), pat_kind, pats, lead_space)| {
+        .prop_map(|(toks, (lmin, rmin), pat_kind, pats, lead)| {
+            // what precedes the first token: the word x, a space, or (a quarter of the cases) nothing:
+            // then the list begins with the first word, which TeX never tries (no glue before it)
             let mut items = vec![];
-            if lead_space {
-                items.push(Item::Space);
-            } else {
-                items.push(Item::Word("x".into()));
+            match lead {
+                0 | 1 => {}
+                2..=4 => items.push(Item::Space),
+                _ => items.push(Item::Word("x".into())),
             }
             let mut exceptions = vec![];
             let allow_nodes = pat_kind % 4 == 0;
-            for t in &toks {
-                items.push(Item::Space);
+            for (k, t) in toks.iter().enumerate() {
+                if k > 0 || lead >= 2 {
+                    items.push(Item::Space);
+                }
                 cm_token(t, &mut items, &mut exceptions, allow_nodes);
             }
             let patterns = if pat_kind % 3 == 0 {
@@ -1808,20 +2638,24 @@ fn sy_strategy() -> impl Strategy<Value = LCase> {
                 }
                 rs.push(rule_text(l, rc, z, r.op, r.k));
             }
+            // what precedes the first token: the word x, a space, or (a quarter of the cases) nothing
             let mut items = vec![];
-            if misc % 8 == 0 {
-                items.push(Item::Space);
-            } else {
-                items.push(Item::Word("x".into()));
+            let lead = (misc / 4) % 8;
+            match lead {
+                0 | 1 => {}
+                2 => items.push(Item::Space),
+                _ => items.push(Item::Word("x".into())),
             }
             let mut exceptions = vec![];
             let allow_nodes = misc % 4 == 1;
-            for (t, core) in toks.iter().zip(cores) {
-                items.push(Item::Space);
+            for (k, (t, core)) in toks.iter().zip(cores).enumerate() {
+                if k > 0 || lead >= 2 {
+                    items.push(Item::Space);
+                }
                 match t.before % 32 {
                     0 => items.push(Item::Font(1)),
                     1 => items.push(Item::Font(0)),
-                    2 if allow_nodes => items.push(Item::Node(t.split % 6)),
+                    2 | 4 if allow_nodes => items.push(Item::Node(t.split % NODE_KINDS)),
                     3 => items.push(Item::Space),
                     _ => {}
                 }
@@ -1851,11 +2685,11 @@ fn sy_strategy() -> impl Strategy<Value = LCase> {
                     items.push(Item::Word(word[..k].to_string()));
                     items.push(Item::Font(((t.split / 16) % 2) ^ 1));
                     items.push(Item::Word(word[k..].to_string()));
+                    node_after_word(t, &mut items, allow_nodes, "");
                 } else {
                     items.push(Item::Word(word));
-                    if allow_nodes && t.hyph_mask >> 60 == 0 {
-                        items.push(Item::Node(((t.hyph_mask >> 56) % 6) as u8));
-                    }
+                    let tail: String = letters.iter().cycle().skip(t.split as usize % letters.len()).take(2 + (t.split as usize / 16) % 4).collect();
+                    node_after_word(t, &mut items, allow_nodes, &tail);
                 }
             }
             let lower: Vec<char> = {
@@ -1888,19 +2722,54 @@ fn sy_strategy() -> impl Strategy<Value = LCase> {
 }
 
 // ---------------------------------------------------------------------------------------------
+// Small-scope exhaustive pass: every word over {f, i, l, a} of 2..=max letters x every set of hyphen
+// positions (given as a \hyphenation exception, no patterns), minimums 1/1, in cmr10: all
+// combinations of the ff fi fl ffi ffl ligatures with all hyphen masks.
+
+const EXH_ALPHABET: [char; 4] = ['f', 'i', 'l', 'a'];
+
+fn exhaustive_total(max_len: usize) -> u64 {
+    (2..=max_len).map(|n| 4u64.pow(n as u32) << (n - 1)).sum()
+}
+
+fn exhaustive_case(mut i: u64, max_len: usize) -> LCase {
+    let mut n = 2;
+    while n < max_len && i >= 4u64.pow(n as u32) << (n - 1) {
+        i -= 4u64.pow(n as u32) << (n - 1);
+        n += 1;
+    }
+    let mask = i & ((1 << (n - 1)) - 1);
+    let mut w = i >> (n - 1);
+    let mut word = String::new();
+    let mut exc = String::new();
+    for k in 0..n {
+        let c = EXH_ALPHABET[(w % 4) as usize];
+        w /= 4;
+        if k > 0 && (mask >> (k - 1)) & 1 == 1 {
+            exc.push('-');
+        }
+        word.push(c);
+        exc.push(c);
+    }
+    LCase { rules: None, patterns: Some(vec![]), exceptions: vec![exc], lmin: 1, rmin: 1, items: vec![Item::Word("x".into()), Item::Space, Item::Word(word)] }
+}
+
+// ---------------------------------------------------------------------------------------------
 // Entry point
 
 pub fn run(ctx: &Ctx) {
-    ctx.rule("case = text (words with ligature/kern-rich and long cores, punctuation, digits, explicit hyphens, apostrophes, letterless tokens such as 3.0, words of 64+ letters, upper case; font switches between two copies of one metric file, rarely a directly pushed penalty/kern/math/rule/whatsit/box node) typeset by TextPreprocessorImpl in cmr10 or in cmr10's metrics with a generated lig/kern program (all 8 ligature forms and kerns, aimed at the letter pairs of the text, at characters inserted by other rules, at the hyphen character and at both boundaries) x pattern set (plain TeX's, or a small generated one with digits 0-5) x exceptions (hyphenated variants of the words in the text) x left/right hyphen minimums (1..5, rarely 0, -1, 6, 63, 64, 70); non-trivial = at least one inserted discretionary falls strictly inside the letters of a ligature node of the unhyphenated list, or has an implicit kern among or next to the nodes it replaces; distinct = by full case text. Class histograms record the other shapes (post-break material, ligatures inside pre/post-break, several nodes replaced, positions dropped inside replaced letters, words after a non-letter prefix, words cut at 63 letters, words blocked by TeX 899)");
+    ctx.rule("case = text (words with ligature/kern-rich and long cores, punctuation, digits, explicit hyphens, apostrophes, letterless tokens such as 3.0, words of 64+ letters, upper case; font switches between two copies of one metric file; in a quarter of the cases directly pushed nodes of 14 kinds - penalty, explicit/accent/math kern, math-on/off, rule, whatsit, hbox, vbox, mark, insertion, adjust, discretionary \\- - before a token, after a word (also after a font-split word) or INSIDE a word; in a quarter of the cases the list begins with the first word, no glue before it) typeset by TextPreprocessorImpl in cmr10 or in cmr10's metrics with a generated lig/kern program (all 8 ligature forms and kerns, aimed at the letter pairs of the text, at characters inserted by other rules, at the hyphen character and at both boundaries) x pattern set (plain TeX's, or a small generated one with digits 0-5) x exceptions (hyphenated variants of the words in the text) x left/right hyphen minimums (1..5, rarely 0, -1, 6, 63, 64, 70); cmr10_exhaustive = every word over {f,i,l,a} of 2..6 (thorough: 2..8) letters x every set of hyphen positions, minimums 1/1; non-trivial = at least one inserted discretionary falls strictly inside the letters of a ligature node of the unhyphenated list, or has an implicit kern among or next to the nodes it replaces; distinct = by full case text. Class histograms record the other shapes (which node kind decided TeX 896/899, first word of the list, post-break material, ligatures inside pre/post-break, several nodes replaced, positions dropped inside replaced letters, words after a letterless token, words cut at 63 letters, TeX's anomaly classes a-d, ...)");
     ctx.assume("letters are the 52 ASCII letters (plain TeX's \\lccode table), \\uchyph=1, and the hyphen character of every font is '-': the implementation hard-codes all three, and TeX's golden lists (alice_golden) agree");
-    ctx.assume("lists are what TextPreprocessorImpl makes of the items; two add_word calls are never adjacent without a space, a font switch or a node between them (TeX re-ligatures across such a seam when it reconstitutes, the shelf{}ful effect), enforced by construction; directly pushed nodes (a quarter of the cases) go beyond 'produced from text' but stay inside TeX 894-899; the end of the list permits hyphenation like the penalty+glue that ends every TeX paragraph");
-    ctx.assume("words TeX itself rebuilds differently are skipped and counted (only when they have a permitted hyphen - TeX 902 leaves every other word alone): (a) a ligature rule applies between the end of the word and the character after it, which TeX 903 uses as right boundary (pinned by the unit tests right_boundary_char_override_3..6, where the oracle indeed rejects TeX's list); (b) the implicit kern after the word may stem from the left boundary of a following font. Both are decided from the rule table of the case (cmr10: its 11 ligature rules), conservatively. Kerns of width 0 (dropped by TeX 911 `if w<>0`) are never generated");
+    ctx.assume("lists are what TextPreprocessorImpl makes of the items; two add_word calls are never adjacent without a space, a font switch or a node between them (TeX re-ligatures across such a seam when it reconstitutes, the shelf{}ful effect), enforced by construction; directly pushed nodes (a quarter of the cases) go beyond 'produced from text' but stay inside TeX 894-899; the end of the list permits hyphenation like the penalty+glue that ends every TeX paragraph; the first word of a list (no glue before it) is never tried, as in TeX 866");
+    ctx.assume("(v) comparison with the list TeX 903-918 builds, NOT demanded: a list that satisfies clauses (i)-(iv) but differs from TeX's in how the discretionaries are built (pre-break/post-break glyphs, kerns, boundary flags, replace counts, discretionary before instead of after a ligature at the same letter position) passes and is counted under differs_from_tex_reconstitution_but_stated_clauses_hold / differs:*; the model decides which words TeX itself rebuilds differently, what KF-C14-1 predicts, and - clause (iv) made exact - WHICH permitted letter positions TeX 913-916 drops while the branches synchronise: the set of letter positions with a discretionary must be TeX's (a discretionary that swallows later permitted positions TeX keeps is a violation of 'exactly the Liang positions'). The model: models::tex_hyph (a transliteration of reconstitute and of the discretionary construction on top of the raw lig/kern instruction interpreter models::ligkern_interp; calibrated node for node on TeX's own lists: the 33 unit tests incl. TeX's anomaly and 995 Alice boxes) gives the expected list; A word in which a discretionary would replace more than 127 nodes (TeX 918 forgets it - a limit of TeX's node layout; only fonts whose rules insert several characters per letter reach it) is left to clauses (i)-(iv) and counted. Clauses (i)-(iv) stay as the model-free check of what the statement says literally; a case where they reject a list that equals the model's is counted as inconclusive, never as a violation (0 in all runs so far)");
+    ctx.assume("words TeX itself rebuilds differently (decided exactly: the model's list without its discretionaries differs from the original nodes; only words with a permitted hyphen - TeX 902 leaves every other word alone) cannot satisfy clause (i) against the original nodes; there clauses (i)-(iv) must hold either against the original nodes (the implementation kept them) or against the nodes TeX rebuilds (the model's list without its discretionaries); classes: (a) a ligature rule applies between the end of the word and the character after it, which TeX 903 uses as right boundary (unit tests right_boundary_char_override_3..6; in its mild form only the right-boundary flag of the last ligature changes); (b) the implicit kern after the word stems from the left boundary of a following font; (c) an implicit kern before a word that starts with a left-boundary ligature is produced twice; (d) the node before the word is a character of its font with a rule for the first letter, which fires again. The rule-table predictions of (a)-(c) only name the class (and replace the model where it does not apply: characters beyond 255). The implementation runs on every case, so a panic or hang in such a word is seen. Kerns of width 0 (dropped by TeX 911 `if w<>0`) are never generated");
     ctx.assume("generated lig/kern programs with an infinite loop (compile reports it) are skipped and counted");
-    ctx.assume("(ii) compares letters (original characters of character and ligature nodes); every character inside an inserted discretionary must be in the word's font; exactly one trailing hyphen character is removed from the original characters of the pre-break list (it may be followed by a boundary ligature without original characters)");
-    ctx.assume("(iv) completeness as calibrated on TeX's lists: a permitted position may lack a discretionary only if it lies strictly inside the letters replaced by a discretionary at an earlier position (TeX 913-916; unit test synchronization_2 drops a hyphen BETWEEN two ligature nodes, so 'inside one ligature node' would be too strict). For fonts whose rules are only kerns and both-characters-replaced ligatures, without boundary rules and without reachable rules for the hyphen character (cmr10 is one), TeX 913-916 is replayed on letter counts and positions AND replaced letter ranges must agree exactly (977 Alice boxes and 9 unit tests calibrate this)");
+    ctx.assume("(ii) compares letters (original characters of character and ligature nodes); every character inside an inserted discretionary must be in the word's font; exactly one trailing hyphen character is removed from the original characters of the pre-break list (it may be followed by a boundary ligature without original characters); everything else inside the discretionaries is covered by (v)");
+    ctx.assume("(iv) completeness as calibrated on TeX's lists: a permitted position may lack a discretionary only if it lies strictly inside the letters replaced by a discretionary at an earlier position (TeX 913-916; unit test synchronization_2 drops a hyphen BETWEEN two ligature nodes, so 'inside one ligature node' would be too strict). For fonts whose rules are only kerns and both-characters-replaced ligatures, without boundary rules and without reachable rules for the hyphen character (cmr10 is one), TeX 913-916 is replayed on letter counts and positions AND replaced letter ranges must agree exactly (977 Alice boxes and 9 unit tests calibrate this); for every font (v) decides the exact set");
     ctx.assume("structure beyond the property text, calibrated on TeX's lists: a discretionary or the end of its replaced nodes never separates a character from the implicit kern after it");
-    ctx.assume("every case runs on a helper thread; no answer within 20 s (normal: < 10 ms) is reported as a violation (suspected non-termination of the TeX 916 loop), not as a hang of the check");
-    ctx.assume("known-finding flags switch on named deviations of the reference (word discovery consumes the node that stops a letterless prefix; words rebuilt from their letters starting at the left boundary / from the first letter / even without a permitted hyphen - the rebuilt nodes are computed with the repository's lig/kern run, only inside the deviation path; right-boundary field of ligatures among replaced nodes); the deviating reference must accept the output completely, smallest flag subsets first");
+    ctx.assume("every case runs on a helper thread; a case without an answer is judged by the CPU time the helper spent on it: 10 s of CPU on one case (normal: < 10 ms) is non-termination (suspected TeX 916 loop) and a violation; a wall-clock timeout without that much CPU time (overloaded machine) is inconclusive: the case is skipped and counted, a second one ends the run with exit code 2; wall time alone never fails a case, and after a confirmed hang later cases are skipped and counted, never passed");
+    ctx.assume("synthetic fonts are written to TFM bytes and read back before they are given to the text preprocessor and to the hyphenator (what a TeX run would load); the TeX model reads the rule text of the case");
+    ctx.assume("known-finding flags switch on named deviations of the reference; flag:word_rebuilt_from_its_first_letter... (KF-C14-1) is a deviation of the TeX model itself (the node before the word is ignored only if it is a character or ligature of the word's font): the deviating model must build the implementation's list node for node, or clauses (i)-(iv) must hold against the deviating model's list without its discretionaries; the older flags (word discovery consumes the node that stops a letterless prefix; words rebuilt from the left boundary / even without a permitted hyphen; right-boundary field of ligatures among replaced nodes) are deviations of the clause oracle whose rebuilt nodes come from the repository's lig/kern run, only inside the deviation path");
 
     let known = Known::of(ctx);
     // debugging aid (sensitivity experiments): VP_C14_ONLY=<sub-check> runs only that sub-check
@@ -1933,5 +2802,9 @@ pub fn run(ctx: &Ctx) {
     if wanted("synth") {
         let n = ctx.tier.pick(160_000u64, 3_000_000u64);
         run_generated(ctx, "synth", n, sy_strategy, |c: &LCase, case| oracle(&known, c, case));
+    }
+    if wanted("cmr10_exhaustive") {
+        let max_len = ctx.tier.pick(6usize, 8usize);
+        run_indexed(ctx, "cmr10_exhaustive", exhaustive_total(max_len), true, |i| exhaustive_case(i, max_len), |c: &LCase, case| oracle(&known, c, case));
     }
 }
